@@ -16,8 +16,15 @@ import (
 	"time"
 )
 
-// VerifDir is the root of the verification tree.
-const VerifDir = "/verif"
+// VerifDir is the root of the verification tree (run.sh exports its own directory).
+var VerifDir = verifDir()
+
+func verifDir() string {
+	if d := os.Getenv("VERIF_DIR"); d != "" {
+		return d
+	}
+	return "/verif"
+}
 
 // Check is one property check.
 type Check struct {
